@@ -996,6 +996,187 @@ def full_like(a, val, dtype=None):
     return full(as_arr(a).shape, val, dtype)
 
 
+def kron(a, b):
+    a, b = as_arr(a), as_arr(b)
+    nd = max(a.ndim, b.ndim)
+    a = reshape(a, (1,) * (nd - a.ndim) + a.shape)
+    b = reshape(b, (1,) * (nd - b.ndim) + b.shape)
+    ash, bsh = [], []
+    for x, y in zip(a.shape, b.shape):
+        ash += [x, 1]
+        bsh += [1, y]
+    prod_ = reshape(a, tuple(ash)) * reshape(b, tuple(bsh))
+    return reshape(prod_, tuple(x * y for x, y in zip(a.shape, b.shape)))
+
+
+def linspace(start, stop, num=50, endpoint=True, **k):
+    from fractions import Fraction as _F
+
+    num = _as_int(num)
+    start, stop = as_arr(start), as_arr(stop)
+    if start.ndim or stop.ndim or not start.is_concrete() or not stop.is_concrete():
+        raise Unsupported("linspace with array / symbolic bounds")
+    a, b = _F(start.elems[0]), _F(stop.elems[0])
+    div = (num - 1) if endpoint else num
+    vals = [a + (b - a) * _F(i, div) if div else a for i in range(num)]
+    return Arr((num,), [int(v) if v.denominator == 1 else v for v in vals], "float")
+
+
+def indices(dimensions, dtype=None, sparse=False):
+    dims = tuple(_as_int(d) for d in dimensions)
+    import itertools as _it
+
+    outs = []
+    for ax in range(len(dims)):
+        outs.append(Arr(dims, [idx[ax] for idx in _it.product(*[range(d) for d in dims])], "int"))
+    return stack(outs, 0) if outs else zeros((0,))
+
+
+def meshgrid(*xs, indexing="xy", **k):
+    xs = [as_arr(x) for x in xs]
+    if any(x.ndim != 1 for x in xs):
+        raise Unsupported("meshgrid of non-1-d inputs")
+    n = len(xs)
+    shape = [x.shape[0] for x in xs]
+    outs = []
+    for i, x in enumerate(xs):
+        sh = [1] * n
+        sh[i] = shape[i]
+        outs.append(broadcast_to(reshape(x, tuple(sh)), tuple(shape)))
+    if indexing == "xy" and n >= 2:
+        outs = [swapaxes(o, 0, 1) for o in outs]
+    return outs
+
+
+def cumprod(a, axis=None):
+    a = as_arr(a)
+    if axis is None:
+        a = reshape(a, (-1,))
+        axis = 0
+    axis = _as_int(axis) % a.ndim
+    parts = []
+    acc = None
+    for i in range(a.shape[axis]):
+        cur = take(a, [i], axis)
+        acc = cur if acc is None else acc * cur
+        parts.append(acc)
+    return concatenate(parts, axis) if parts else a
+
+
+def diff(a, n=1, axis=-1):
+    a = as_arr(a)
+    axis = _as_int(axis) % a.ndim
+    for _ in range(_as_int(n)):
+        m = a.shape[axis]
+        a = take(a, list(range(1, m)), axis) - take(a, list(range(0, m - 1)), axis)
+    return a
+
+
+def _tri_mask(shape, k, lower):
+    n, m = shape[-2], shape[-1]
+    vals = []
+    for i in range(n):
+        for j in range(m):
+            vals.append(1 if ((j - i <= k) if lower else (j - i >= k)) else 0)
+    return Arr((n, m), vals, "int")
+
+
+def tril(a, k=0):
+    a = as_arr(a)
+    return a * _tri_mask(a.shape, _as_int(k), True)
+
+
+def triu(a, k=0):
+    a = as_arr(a)
+    return a * _tri_mask(a.shape, _as_int(k), False)
+
+
+def rollaxis(a, axis, start=0):
+    a = as_arr(a)
+    axis = _as_int(axis) % a.ndim
+    start = _as_int(start)
+    if start < 0:
+        start += a.ndim
+    if start > axis:
+        start -= 1
+    return moveaxis(a, axis, start)
+
+
+def array_split(a, sections, axis=0):
+    a = as_arr(a)
+    axis = _as_int(axis) % a.ndim
+    n = a.shape[axis]
+    if isinstance(sections, int):
+        q, r = divmod(n, sections)
+        sizes = [q + 1] * r + [q] * (sections - r)
+    else:
+        cuts = [0] + [_as_int(x) for x in sections] + [n]
+        sizes = [max(0, min(n, cuts[i + 1]) - min(n, cuts[i])) for i in range(len(cuts) - 1)]
+    out, pos = [], 0
+    for sz in sizes:
+        out.append(take(a, list(range(pos, pos + sz)), axis))
+        pos += sz
+    return out
+
+
+def delete(a, obj, axis=None):
+    a = as_arr(a)
+    if axis is None:
+        a = reshape(a, (-1,))
+        axis = 0
+    axis = _as_int(axis) % a.ndim
+    n = a.shape[axis]
+    o = as_arr(obj)
+    if not o.is_concrete():
+        raise Unsupported("delete with symbolic indices")
+    drop = {int(x) % n for x in o.elems}
+    return take(a, [i for i in range(n) if i not in drop], axis)
+
+
+def count_nonzero(a, axis=None, keepdims=False):
+    a = as_arr(a)
+    if not a.is_concrete():
+        raise Unsupported("count_nonzero of a symbolic array")
+    return reduce_("sum", Arr(a.shape, [1 if e != 0 else 0 for e in a.elems], "int"), axis, keepdims)
+
+
+def sort(a, axis=-1, **k):
+    a = as_arr(a)
+    if not a.is_concrete():
+        raise Unsupported("sort of a symbolic array")
+    if a.ndim == 0:
+        return a
+    axis = _as_int(axis) % a.ndim
+    m = moveaxis(a, axis, -1)
+    n = m.shape[-1]
+    vals = []
+    for r in range(0, len(m.elems), n):
+        vals.extend(sorted(m.elems[r:r + n]))
+    return moveaxis(Arr(m.shape, vals, a.dtype), -1, axis)
+
+
+def take_along_axis(a, idx, axis):
+    a, idx = as_arr(a), as_arr(idx)
+    if not idx.is_concrete():
+        raise Unsupported("take_along_axis with symbolic indices")
+    axis = _as_int(axis) % a.ndim
+    import itertools as _it
+
+    shape = idx.shape
+    bshape = tuple(a.shape[i] if i != axis else idx.shape[i] for i in range(a.ndim))
+    if any(idx.shape[i] not in (1, bshape[i]) for i in range(a.ndim)):
+        raise AbstractError("take_along_axis: incompatible shapes %r, %r" % (a.shape, idx.shape))
+    idxb = broadcast_to(idx, bshape)
+    vals = []
+    for pos, j in zip(_it.product(*[range(d) for d in bshape]), idxb.elems):
+        p = list(pos)
+        p[axis] = int(j) % a.shape[axis]
+        vals.append(a[tuple(p)].elems[0] if a.elems is not None else None)
+    if a.elems is None:
+        return untracked(bshape)
+    return Arr(bshape, vals, a.dtype)
+
+
 def stack(arrs, axis=0):
     arrs = [as_arr(x) for x in arrs]
     if not arrs:
